@@ -281,6 +281,21 @@ class Gen:
             own.append(labels_here[0])
             lines.append({"k": rng.choice(ORD_KEYS)})
             lines.append({"k": "jne", "t": labels_here[0]})
+        elif shape < 0.31 and into_code:
+            # inline data the patch jumps over, under one or two labels
+            lines.append({"k": "jmp", "t": labels_here[0]})
+            lines.append({"l": labels_here[1]})
+            own.append(labels_here[1])
+            if rng.random() < 0.6:
+                third = ("" if isa == "ia32" or rng.random() < 0.5
+                         else ".L") + f"pt{eid}_e"
+                if third.startswith(".L"):
+                    temp[third] = True
+                lines.append({"l": third})
+            lines.append({"k": "bytes",
+                          "hex": rng.randbytes(rng.randrange(1, 5)).hex()})
+            lines.append({"l": labels_here[0]})
+            own.append(labels_here[0])
         for _ in range(n):
             r = rng.random()
             if r < 0.45:
